@@ -8,7 +8,7 @@ Two monitors, both fed from sandboxed workers (observation there, verdict here):
     behind a stub that only has ``infolist()`` and (b) as a real ZIP whose central directory claims those sizes,
     pushed through ``validate_zip_bytesio`` (from several stream positions, which must be restored) and
     ``open_zipfile``.  Where the statement is silent (do directory entries count as entries? do the compressed
-    bytes of empty entries count in the total ratio?) every reading is admissible and nothing is demanded.
+    bytes of empty entries count in the total ratio? - they do, see ref_decide) every reading is admissible and nothing is demanded.
 
 (2) zip-order monitor (vlib/mon/ziporder.py).  The 10 ZIP-container entry points run on repository fixtures and
     on bomb-shaped variants of them (forged central-directory sizes, 50 001 entries, really-high-ratio members)
@@ -56,7 +56,10 @@ def ref_decide(entries, lim) -> set:
                 or any(c > 0 and Fraction(f, c) > RE for f, c in files)
                 or (tot_c > 0 and Fraction(tot_f, tot_c) > RT))
     counts = {len(entries), len(files)}                                   # silent: do directory entries count as entries
-    totals = {sum(c for _, c in files), sum(c for f, c in files if f > 0)}  # silent: compressed bytes of empty entries
+    # "total compression ratio" = total uncompressed over total compressed size of the (non-directory) entries; nothing in the
+    # statement exempts the compressed bytes of empty entries, so they count (a seeded change that drops them rejects
+    # containers that are exactly on the limit)
+    totals = {sum(c for _, c in files)}
     return {rejected(n, tc) for n in counts for tc in totals}
 
 
